@@ -45,6 +45,30 @@ def run(tier, seed, replay=None):
         p = (gen.gen_match_program(r, npasses=3, size="medium") if fam == 0 else gen.gen_class_program(r, size="medium") if fam == 1
              else gen.gen_gattr_program(r) if fam == 2 else gen.gen_feature_program(r))
         progs.append(("g%03d" % i, p, None))
+    # rejected programs: the diagnostics (and the absence of a font) must be as reproducible as a font
+    import fuzz11
+    import ttf as _ttf
+    G_ = "table(glyph) cA = glyphid(3..6); cB = glyphid(7..10); cC = glyphid(11); endtable;\n"
+    bad = [
+        ("e_first_line", "table(glyph) cA = = glyphid(3); cB = codepoint; endtable;\ntable(sub) cA > cB; endtable;\n"),
+        ("e_after_include", '#include "stddef.gdh"\ncA cB;\n' + G_ + "table(sub) cA > cB; endtable;\n"),
+        ("e_last_line", '#include "stddef.gdh"\n' + G_ + "table(sub) cA > cB; endtable;\ntable(sub) cA > "),
+        ("e_undefined", '#include "stddef.gdh"\n' + G_ + "table(sub) cA > cNope; cB > cNone / cA _; endtable;\n"),
+        ("e_many_warnings", '#include "stddef.gdh"\n' + G_ + "table(sub) " + " ".join("cA > cC / cB _ %s;" % ("cA " * k) for k in range(12)) + " endtable;\n"),
+        ("e_pp_unterminated", '#include "stddef.gdh"\n#if 1\n' + G_ + "table(sub) cA > cB; endtable;\n"),
+        ("e_comment_then_error", '#include "stddef.gdh"\n' + G_ + "/* a\n b\n c */ cX cY;\ntable(sub) cA > cB; endtable;\n"),
+    ]
+    for k in range(4 if tier == "quick" else 16):
+        r = random.Random(rng.getrandbits(64))
+        text, _ops = fuzz11.mutate_tokens(r, fuzz11.SEEDS[r.choice(sorted(fuzz11.SEEDS))], r.choice([1, 2, 4]))
+        bad.append(("e_mut%02d" % k, text))
+    bfont = _ttf.simple_font(40, post_names=[".notdef"] + ["g%d" % i for i in range(1, 40)])[0]
+    for nm, text in bad:
+        pr = gen.Prog()
+        pr.nglyphs = 40
+        pr.font = bfont
+        pr.raw_gdl = text
+        progs.append((nm, pr, None))
     fonts = os.path.join(common.REPO, "test/GrcRegressionTest/fonts")
     for gdl, font, opts in SUITE if tier == "quick" else SUITE + [("PadaukMain.gdl", "PadaukInput.ttf", ["-v3"])]:
         progs.append((gdl.split(".")[0], None, (gdl, font, opts)))
